@@ -7,7 +7,7 @@ from ..dataflow import (field_sources, two_var_table, call_of, call_shape, cond_
                         variant_excluded_edges)
 from ..guards import HelperGuard, site_guarded
 from ..effects import dispatch_table, arm_blocks
-from .common import storage_calls, arg_origins, ok_value_blocks, must_pass_through
+from .common import storage_calls, arg_origins, ok_value_blocks, must_pass_through, membership_test, nonzero_edges
 
 EXPLANATION = """
 B1: in `bond` the success edge of validate_funds(..)? dominates BOND.save and GLOBAL.save; inside validate_funds each of
@@ -55,6 +55,12 @@ def check_validate_funds(ctx, model):
     atoms = {"one-coin": None, "non-zero": None, "amount-equal": None, "denom-equal": None, "whitelisted": None}
     for b, c, _ in switch_conds(v):
         te, fe = cmp_true_false_edges(v, b, c) if c.kind in ("cmp", "call", "place") else ([], [])
+        nz = nonzero_edges(v, b, c)
+        if nz is not None and c.kind == "cmp":
+            ox = v.origins_of_operand(nz[0], at=nz[1])
+            if ox and all(o.kind == "param" and o.a == info and tuple(o.proj) == ("funds", "amount") for o in ox):
+                atoms["non-zero"] = (b, nz[3])
+                continue
         if c.kind == "cmp":
             at = cond_at(v, c)
             oa = v.origins_of_operand(c.a, at=at)
@@ -75,9 +81,14 @@ def check_validate_funds(ctx, model):
             a0 = v.origins_of_operand(c.term["args"][0], at=v.at_term(c.block)) if c.term["args"] else set()
             if c.callee.endswith("Uint128::is_zero") and a0 and all(o.kind == "param" and o.a == info and tuple(o.proj) == ("funds", "amount") for o in a0):
                 atoms["non-zero"] = (b, fe if c.neg else te)
-            elif c.callee.endswith("as std::iter::Iterator>::any") and a0 and all(o.kind == "load" and tuple(o.proj) == ("bonding_assets",) for o in a0):
-                # !any(..) rejects
-                atoms["whitelisted"] = (b, te if c.neg else fe)
+            elif c.callee.endswith("Uint128::is_zero"):
+                pass
+            else:
+                mt = membership_test(model, v, c)
+                if mt and mt[0] and all(o.kind == "load" and tuple(o.proj) == ("bonding_assets",) for o in mt[0]):
+                    # the edge on which the denom is NOT among the whitelisted ones rejects
+                    member_true = mt[1] != bool(c.neg)
+                    atoms["whitelisted"] = (b, fe if member_true else te)
     for name, val in sorted(atoms.items()):
         if val is None:
             ctx.ob("C08-B1", "%s|atom|%s" % (VF, name), False, "rejection atom '%s' not found in validate_funds" % name, v.where())
@@ -92,8 +103,8 @@ def check_validate_funds(ctx, model):
     # whitelist closure compares the whitelisted denom with the declared denom
     for q in [x for x in model.fnsrc if x.startswith(VF + "::{closure")]:
         cv = model.view(q)
-        eqs = [t for b, t in cv.iter_calls() if re.search(r"<std::string::String as std::cmp::PartialEq>::eq$", mname(t))]
-        ctx.ob("C08-B1", "%s|whitelist-closure-compares-denoms" % VF, bool(eqs), "string equality calls in %s: %d" % (q, len(eqs)), cv.where())
+        eqs = [t for b, t in cv.iter_calls() if re.search(r"<std::string::String as std::cmp::PartialEq>::(eq|ne)$", mname(t))]
+        ctx.ob("C08-B1", "%s|whitelist-closure-compares-denoms" % VF, bool(eqs), "string comparisons in %s: %d" % (q, len(eqs)), cv.where())
 
 
 def check_bond(ctx, model):
